@@ -2,7 +2,7 @@
    Property theorems only; proofs are in Batch/Proofs*.v and Batch/Theorems.v.  "reachable q b s": some event trace of
    the acceptor LTS (any number of threads, any interleaving) leads from the initial state with max_queue_size q and
    max_export_batch_size b to s. *)
-From V Require Import Batch.Model Batch.Glue Batch.Spec Batch.ProofsA Batch.ProofsB Batch.Theorems Batch.TraceSpec Batch.TraceSpec2.
+From V Require Import Batch.Model Batch.Glue Batch.Spec Batch.ProofsA Batch.ProofsB Batch.Theorems Batch.TraceSpec Batch.TraceSpec2 Batch.TraceSpec3.
 From Coq Require Import List Arith.
 Import ListNotations.
 
@@ -65,6 +65,46 @@ Theorem c01_accepted_trace_meets_budget_spec : forall q b tr s,
   run (init q b) tr = Some s -> Batch.Spec.c01_no_drop_between_flushes q (pevs tr) = [].
 Proof. exact accepted_trace_meets_spec_c01_budget. Qed.
 Print Assumptions c01_accepted_trace_meets_budget_spec.
+
+(* ... the remaining clauses and the whole checker spec_c01.  Hypotheses (on the trace, about the application: the model
+   constrains neither the ids passed to OnEnd nor the use of the destructor): each producer's ids grow in the order the queue
+   accepted them; distinct OnEnd calls carry distinct ids; a destructor call overlaps no Shutdown / destructor call. *)
+Theorem c01_accepted_trace_meets_never_blocks_spec : forall q b tr s,
+  run (init q b) tr = Some s -> Batch.Spec.c01_producer_never_blocks (pevs tr) = [].
+Proof. exact accepted_trace_meets_spec_c01_never_blocks. Qed.
+Print Assumptions c01_accepted_trace_meets_never_blocks_spec.
+
+Theorem c01_accepted_trace_meets_per_producer_order_spec : forall q b tr s,
+  run (init q b) tr = Some s -> c01_order_walk [] (added_ids (pevs tr)) = true -> Batch.Spec.c01_per_producer_order (pevs tr) = [].
+Proof. exact accepted_trace_meets_spec_c01_per_producer_order. Qed.
+Print Assumptions c01_accepted_trace_meets_per_producer_order_spec.
+
+Theorem c01_accepted_trace_meets_no_loss_spec : forall q b tr s,
+  run (init q b) tr = Some s -> Batch.Spec.nodup (called_ids (pevs tr)) = true -> dtor_exclusive tr ->
+  Batch.Spec.c01_no_loss (pevs tr) = [].
+Proof. exact accepted_trace_meets_spec_c01_no_loss. Qed.
+Print Assumptions c01_accepted_trace_meets_no_loss_spec.
+
+Theorem c01_accepted_trace_meets_spec : forall q b tr s,
+  run (init q b) tr = Some s ->
+  c01_order_walk [] (added_ids (pevs tr)) = true -> Batch.Spec.nodup (called_ids (pevs tr)) = true -> dtor_exclusive tr ->
+  Batch.Spec.spec_c01 q (pevs tr) = [].
+Proof. exact accepted_trace_meets_spec_c01. Qed.
+Print Assumptions c01_accepted_trace_meets_spec.
+
+(* a concrete accepted trace with a destructor satisfies the hypotheses; each of the two no_loss hypotheses is needed *)
+Theorem c01_accepted_trace_spec_nonvacuous :
+  ((exists s, run (init 1 1) demo_trace_dtor = Some s) /\ c01_order_walk [] (added_ids (pevs demo_trace_dtor)) = true /\
+   Batch.Spec.nodup (called_ids (pevs demo_trace_dtor)) = true /\ dtor_exclusive demo_trace_dtor /\
+   history_complete (pevs demo_trace_dtor) = true /\ Batch.Spec.spec_c01 1 (pevs demo_trace_dtor) = []) /\
+  ((exists s, run (init 1 1) lost_by_overlapping_destructor = Some s) /\
+   Batch.Spec.c01_no_loss (pevs lost_by_overlapping_destructor) = Base.Tok.fail "no_loss:lost_before_shutdown" /\
+   dtor_walk ([], None) lost_by_overlapping_destructor = false) /\
+  ((exists s, run (init 1 1) lost_by_reused_id = Some s) /\ dtor_exclusive lost_by_reused_id /\
+   Batch.Spec.nodup (called_ids (pevs lost_by_reused_id)) = false /\
+   Batch.Spec.c01_no_loss (pevs lost_by_reused_id) = Base.Tok.fail "no_loss:lost_before_shutdown").
+Proof. exact (conj demo_dtor_meets_spec_c01 (conj overlapping_destructor_loses reused_id_loses)). Qed.
+Print Assumptions c01_accepted_trace_spec_nonvacuous.
 
 Theorem c01_nonvacuous : exists s, run (init 1 1) demo_trace = Some s /\ In (2, 1, true) (fl_done s) /\ sh_done s <> [] /\
   dropped s = [12] /\ exported s = [[11]].
